@@ -114,7 +114,7 @@ Proof.
 Qed.
 
 Lemma in_all_links : forall s l, In l (all_links s) <->
-  (exists x, In x (s_data s) /\ d_member x = true /\ In l (d_int x)) \/
+  (exists x, In x (s_data s) /\ d_member x = true /\ In l (ds_links x)) \/
   (exists e, In e (s_ext s) /\ In l (entry_links e)).
 Proof.
   intros s l. unfold all_links. rewrite in_app_iff, !in_flat_map. split.
@@ -153,8 +153,14 @@ Definition retbl (L : list link) (d : dataset) : dataset :=
 Lemma retbl_fields : forall L d,
   d_id (retbl L d) = d_id d /\ d_member (retbl L d) = d_member d /\ d_hub (retbl L d) = d_hub d /\
   d_own (retbl L d) = d_own d /\ d_coord (retbl L d) = d_coord d /\ d_world (retbl L d) = d_world d /\
-  d_int (retbl L d) = d_int d.
+  d_int (retbl L d) = d_int d /\ d_der (retbl L d) = d_der d.
 Proof. intros L d. unfold retbl. destruct (d_member d) eqn:E; simpl; rewrite ?E; repeat split; auto. Qed.
+
+Lemma retbl_comps : forall L d, comps (retbl L d) = comps d.
+Proof. intros L d. unfold retbl. destruct (d_member d); reflexivity. Qed.
+
+Lemma retbl_links : forall L d, ds_links (retbl L d) = ds_links d.
+Proof. intros L d. unfold retbl. destruct (d_member d); reflexivity. Qed.
 
 Lemma recompute_data : forall s, s_data (recompute s) = map (retbl (all_links s)) (s_data s).
 Proof. intros s. reflexivity. Qed.
@@ -163,7 +169,7 @@ Lemma recompute_links : forall s, all_links (recompute s) = all_links s.
 Proof.
   intros s. unfold all_links at 1. rewrite recompute_data. simpl s_ext.
   rewrite filter_map_comm by (intros x; apply (retbl_fields (all_links s) x)).
-  rewrite flat_map_map_ext by (intros x; apply (retbl_fields (all_links s) x)).
+  rewrite flat_map_map_ext by (intros x; apply retbl_links).
   reflexivity.
 Qed.
 
@@ -178,16 +184,16 @@ Lemma live_recompute : forall s c, live (recompute s) c <-> live s c.
 Proof.
   intros s c. unfold live. rewrite recompute_data. split.
   - intros [d [Hd [Hm Hc]]]. apply in_map_iff in Hd. destruct Hd as [x [Hx Hin]]. subst d.
-    destruct (retbl_fields (all_links s) x) as (_ & E2 & _ & E4 & _). rewrite E2 in Hm. rewrite E4 in Hc. exists x. auto.
+    destruct (retbl_fields (all_links s) x) as (_ & E2 & _). rewrite E2 in Hm. rewrite retbl_comps in Hc. exists x. auto.
   - intros [d [Hd [Hm Hc]]]. exists (retbl (all_links s) d).
-    destruct (retbl_fields (all_links s) d) as (_ & E2 & _ & E4 & _). rewrite E2, E4. split; auto. apply in_map. exact Hd.
+    destruct (retbl_fields (all_links s) d) as (_ & E2 & _). rewrite E2, retbl_comps. split; auto. apply in_map. exact Hd.
 Qed.
 
 Lemma ds_wf_fields : forall d d',
   d_id d' = d_id d -> d_member d' = d_member d -> d_hub d' = d_hub d -> d_own d' = d_own d ->
-  d_coord d' = d_coord d -> d_int d' = d_int d -> ds_wf d -> ds_wf d'.
+  d_coord d' = d_coord d -> d_int d' = d_int d -> d_der d' = d_der d -> ds_wf d -> ds_wf d'.
 Proof.
-  intros d d' E1 E2 E3 E4 E5 E6 H. unfold ds_wf in *. rewrite E1, E2, E3, E4, E5, E6. exact H.
+  intros d d' E1 E2 E3 E4 E5 E6 E7 H. unfold ds_wf, comps, der_cids in *. rewrite E1, E2, E3, E4, E5, E6, E7. exact H.
 Qed.
 
 Lemma recompute_wf : forall s, wf s -> wf (recompute s).
@@ -197,7 +203,7 @@ Proof.
     replace (map (fun x => d_id (retbl (all_links s) x)) (s_data s)) with (map d_id (s_data s)); auto.
     apply map_ext. intros x. symmetry. apply (retbl_fields (all_links s) x).
   - intros d Hd. rewrite recompute_data in Hd. apply in_map_iff in Hd. destruct Hd as [x [Hx Hin]]. subst d.
-    destruct (retbl_fields (all_links s) x) as (E1 & E2 & E3 & E4 & E5 & _ & E7).
+    destruct (retbl_fields (all_links s) x) as (E1 & E2 & E3 & E4 & E5 & _ & E7 & E8).
     apply (ds_wf_fields x); auto.
   - intros e He p c Hp Hc. apply live_recompute. apply (Hext e He p c Hp Hc).
   - rewrite recompute_err. exact Herr.
@@ -258,8 +264,8 @@ Qed.
 Lemma live_put : forall s d d' c,
   NoDup (map d_id (s_data s)) -> find_ds (d_id d') (s_data s) = Some d ->
   (live (set_data s (put_ds d' (s_data s))) c <->
-   (d_member d' = true /\ In c (d_own d')) \/
-   (exists x, In x (s_data s) /\ d_id x <> d_id d' /\ d_member x = true /\ In c (d_own x))).
+   (d_member d' = true /\ In c (comps d')) \/
+   (exists x, In x (s_data s) /\ d_id x <> d_id d' /\ d_member x = true /\ In c (comps x))).
 Proof.
   intros s d d' c Hnd Hf. unfold live. simpl. split.
   - intros [x [Hx [Hm Hc]]]. apply (put_ds_in_iff d' _ d x Hnd Hf) in Hx. destruct Hx as [Hx|[Hx Hne]].
@@ -273,8 +279,8 @@ Qed.
 Lemma live_split : forall s d c,
   NoDup (map d_id (s_data s)) -> In d (s_data s) ->
   (live s c <->
-   (d_member d = true /\ In c (d_own d)) \/
-   (exists x, In x (s_data s) /\ d_id x <> d_id d /\ d_member x = true /\ In c (d_own x))).
+   (d_member d = true /\ In c (comps d)) \/
+   (exists x, In x (s_data s) /\ d_id x <> d_id d /\ d_member x = true /\ In c (comps x))).
 Proof.
   intros s d c Hnd Hd. unfold live. split.
   - intros [x [Hx [Hm Hc]]]. destruct (Z.eq_dec (d_id x) (d_id d)) as [E|E].
@@ -288,7 +294,7 @@ Qed.
 (* the members other than the updated dataset, and the links in force, when a non-member is replaced by a non-member *)
 Lemma member_links_put : forall d' ds d,
   find_ds (d_id d') ds = Some d -> d_member d = false -> d_member d' = false ->
-  flat_map d_int (filter d_member (put_ds d' ds)) = flat_map d_int (filter d_member ds).
+  flat_map ds_links (filter d_member (put_ds d' ds)) = flat_map ds_links (filter d_member ds).
 Proof.
   intros d' ds. induction ds as [|a r IH]; simpl; intros d Hf Hm Hm'; auto.
   destruct (Z.eqb (d_id a) (d_id d')) eqn:E; simpl.
@@ -305,4 +311,21 @@ Proof.
   apply (put_ds_in_iff d' _ d x Hnd Hf) in Hx. destruct Hx as [Hx|[Hx Hne]].
   - subst. congruence.
   - unfold all_links. simpl. rewrite (member_links_put d' _ d Hf Hm Hm'). apply (Hfr x Hx Hmx).
+Qed.
+
+(* shape of the internal links (coordinate links and derived-component links) of a well-formed dataset *)
+Lemma ds_link_shape : forall x l, ds_wf x -> In l (ds_links x) ->
+  l_from l <> [] /\ (forall c, In c (link_cids l) -> In c (comps x)) /\
+  (forall c, In c (link_cids l) -> fst c = d_id x).
+Proof.
+  intros x l (Hown & Hco & Hint & Hder & _) Hl.
+  assert (H : l_from l <> [] /\ forall c, In c (link_cids l) -> In c (comps x)).
+  { unfold ds_links in Hl. apply in_app_iff in Hl. destruct Hl as [Hl|Hl].
+    - destruct (Hint l Hl) as (Hnn & Hfr & Hto). split; auto.
+      intros c [Hc|Hc]; unfold comps; apply in_app_iff; left; apply Hco; subst; auto.
+    - destruct (Hder l Hl) as (Hnn & Hfr). split; auto.
+      intros c [Hc|Hc]; unfold comps; apply in_app_iff.
+      + right. subst c. unfold der_cids. apply in_map. exact Hl.
+      + left. apply Hfr. exact Hc. }
+  destruct H as [H1 H2]. repeat split; auto.
 Qed.
